@@ -94,6 +94,7 @@ def gen(rng, tier):
         subspec["edit"] = rng.choice([[a_], [a_, a_ + 2], [a_ + 2, a_]])
     if mode == "ok" and rng.random() < 0.12:
         extra["pause_json"] = rng.randint(1, 10)
+    extra["pre_same"] = rng.random() < 0.5
     return {**extra, "sub": subspec, "parent_json": rng.random() < 0.25, "explicit_path": mode != "ok" and rng.random() < 0.5,
             "preconfigure": preconf, "mode": mode, "model": pm, "cfg": pcfg, "ranks": G.gen_ranks(rng, pm), "profile": pp}
 
@@ -148,9 +149,11 @@ def run(spec):
     tj = st.tasks["sub"]["sub"]
     remove = bool(tj.get("remove_abs", False))
     if spec.get("preconfigure") and sub.get("simulate", True) and int(sp.status) == 1:
-        # the task is configured twice: first with the opposite remove flag, then with the intended one (the last call counts)
+        # the task is configured twice from the same unchanged file: first with the opposite (or the same) remove flag, then with
+        # the intended one (the last call counts, and reading a file leaves nothing behind that changes the next reading)
         res.count("configured_twice")
-        D.call(lambda: task.set_all_attributes_from_json(remove_absence_time_list=not remove))
+        pre_remove = remove if spec.get("pre_same") else not remove
+        D.call(lambda: task.set_all_attributes_from_json(remove_absence_time_list=pre_remove))
     ckw = {}
     if spec.get("explicit_path") and not (sub.get("simulate", True) and int(sp.status) == 1):
         # the refused file is named in the call; the task's own file_path is another one and must stay what it is
